@@ -9,6 +9,7 @@ import (
 	"io"
 
 	"github.com/jamespfennell/gtfs/constants"
+	"github.com/jamespfennell/gtfs/verifhook"
 	"golang.org/x/text/encoding"
 	"golang.org/x/text/encoding/unicode"
 	"golang.org/x/text/transform"
@@ -126,6 +127,7 @@ func (c OptionalColumn) ReadOr(s string) string {
 }
 
 func (f *File) NextRow() bool {
+	verifhook.Yield("csv.NextRow")
 	cells, err := f.csvReader.Read()
 	if err == io.EOF {
 		f.currentRow = nil
